@@ -44,8 +44,8 @@ def run(repo, rep, tier):
         "statements on the compile path: user-reachable failures must be "
         "TemplateError subclasses; (4) _cook stamps the file name.")
     rep.assumptions = [
-        "Token.location (line/column from offset) is value-level arithmetic "
-        "and not decided; nor that a valid template is never rejected",
+        "that a valid template is never rejected is decided only through "
+        "the necessary conditions of R11.5",
         "function parameters named token/clause are tokens produced by the "
         "tokenizer or by position-faithful steps (interprocedural chains are "
         "followed one level only)",
@@ -64,10 +64,14 @@ def run(repo, rep, tier):
                       "rejected': statement regexes accept multi-line "
                       "expressions; index lookups on compile-time stacks "
                       "are guarded")
+    rep.rule("R11.6", "Token.location closed form: line and column are "
+                      "counted in '\\n' only, from the token's offset")
     _accepts(repo, rep)
     split_ok = _algebra(repo, rep)
     _helpers(repo, rep)
     _raise_sites(repo, rep, split_ok)
+    _token_tables(repo, rep, split_ok)
+    _location(repo, rep)
     _census(repo, rep)
     _dynamic_python(repo, rep)
     _stamp(repo, rep)
@@ -409,6 +413,7 @@ def _chains(fnode, expr, upto_line, limit=8):
             if not found:
                 out.append(steps + ["root:" + e.id])
                 return
+            found = _kill_dominated(found, e)
             for ln, val, kind in found:
                 if val is e:
                     continue
@@ -418,6 +423,47 @@ def _chains(fnode, expr, upto_line, limit=8):
         out.append(steps + ["expr:" + type(e).__name__])
     go(expr, upto_line, [], 0)
     return out or [["?"]]
+
+
+def _stmt_of(n):
+    while n is not None and not isinstance(n, ast.stmt):
+        n = getattr(n, "_parent", None)
+    return n
+
+
+def _kill_dominated(found, use):
+    """Drop the definitions that a later definition, executed on every path
+    to the use, overwrites: a definition dominates the use if it is an
+    earlier sibling of the use statement or of one of its ancestors."""
+    ustmt = _stmt_of(use)
+    if ustmt is None:
+        return found
+    anc = []
+    a = ustmt
+    while a is not None and not isinstance(a, (ast.FunctionDef, ast.Lambda)):
+        anc.append(a)
+        a = getattr(a, "_parent", None)
+    best = None
+    for ln, val, kind in found:
+        d = _stmt_of(val)
+        if d is None or kind != "assign":
+            continue
+        par = getattr(d, "_parent", None)
+        for fld in ("body", "orelse", "finalbody"):
+            blk = getattr(par, fld, None)
+            if not isinstance(blk, list) or d not in blk:
+                continue
+            # a try body may be left before the definition ran
+            if isinstance(par, ast.Try) and fld == "body" and not any(
+                    x in blk for x in anc):
+                continue
+            for x in anc:
+                if x in blk and blk.index(x) > blk.index(d):
+                    if best is None or ln > best:
+                        best = ln
+    if best is None:
+        return found
+    return [f for f in found if f[0] >= best]
 
 
 def template_error_classes(repo):
@@ -490,6 +536,136 @@ def _raise_sites(repo, rep, split_ok):
     rep.count("template_error_raise_sites", n)
     rep.require_min("R11.2", 40, "TemplateError raise sites (two obligations "
                                  "each) on the compile path")
+
+
+def _location(repo, rep):
+    """Token.location: line = 1 + number of '\\n' before pos, column =
+    distance from the last '\\n' before pos.  Decided as a closed form:
+    the returned pair is normalised to a linear combination over the atoms
+    NL = <prefix>.count('\\n'), LAST = <prefix>.rfind('\\n'), pos."""
+    f = repo.func("chameleon.tokenize.Token.location")
+    wh = L.where(f)
+    env = {}
+
+    def resolve(e):
+        while isinstance(e, ast.Name) and e.id in env:
+            e = env[e.id]
+        return e
+
+    def is_prefix(e):
+        e = resolve(e)
+        return isinstance(e, ast.Subscript) and \
+            src(e.value) == "self.source" and \
+            isinstance(e.slice, ast.Slice) and e.slice.lower is None and \
+            e.slice.step is None and e.slice.upper is not None and \
+            src(e.slice.upper) == "self.pos"
+
+    def lin(e):
+        e = resolve(e)
+        if isinstance(e, ast.Constant) and type(e.value) is int:
+            return {"": e.value}
+        if isinstance(e, ast.Attribute) and src(e) == "self.pos":
+            return {"pos": 1}
+        if isinstance(e, ast.Call) and isinstance(e.func, ast.Attribute) \
+                and is_prefix(e.func.value) and e.args and \
+                isinstance(e.args[0], ast.Constant) and \
+                e.args[0].value == "\n" and not e.keywords:
+            rest = [src(a) for a in e.args[1:]]
+            if e.func.attr == "count" and rest in ([], ["0"]):
+                return {"NL": 1}
+            if e.func.attr == "rfind" and rest in ([], ["0"]):
+                return {"LAST": 1}
+            return None
+        if isinstance(e, ast.Call) and isinstance(e.func, ast.Attribute) \
+                and src(resolve(e.func.value)) == "self.source" and \
+                [src(a) for a in e.args[1:]] in (["0", "self.pos"],) and \
+                isinstance(e.args[0], ast.Constant) and \
+                e.args[0].value == "\n" and not e.keywords:
+            # bounded search in the whole source: same value
+            if e.func.attr == "count":
+                return {"NL": 1}
+            if e.func.attr == "rfind":
+                return {"LAST": 1}
+            return None
+        if isinstance(e, ast.BinOp) and isinstance(e.op, (ast.Add, ast.Sub)):
+            a, b = lin(e.left), lin(e.right)
+            if a is None or b is None:
+                return None
+            sg = 1 if isinstance(e.op, ast.Add) else -1
+            out = dict(a)
+            for k, v in b.items():
+                out[k] = out.get(k, 0) + sg * v
+            return out
+        if isinstance(e, ast.UnaryOp) and isinstance(e.op, ast.USub):
+            a = lin(e.operand)
+            return None if a is None else {k: -v for k, v in a.items()}
+        return None
+
+    def norm(d):
+        return None if d is None else {k: v for k, v in d.items() if v}
+
+    final = None
+    for st in f.node.body:
+        if isinstance(st, ast.Assign) and len(st.targets) == 1 and \
+                isinstance(st.targets[0], ast.Name):
+            env[st.targets[0].id] = st.value
+        elif isinstance(st, ast.Return):
+            final = st.value
+    ok_line = ok_col = False
+    detail = src(final) if final is not None else "no final return"
+    if isinstance(final, ast.Tuple) and len(final.elts) == 2:
+        ok_line = norm(lin(final.elts[0])) == {"NL": 1, "": 1}
+        ok_col = norm(lin(final.elts[1])) == {"pos": 1, "LAST": -1, "": -1}
+    rep.check(ok_line, "R11.6", f.qualname, "line = 1 + number of '\\n' in "
+              "source[:pos] (the only line separator of the parsed text)",
+              construct="location-line", where=wh, detail=detail)
+    rep.check(ok_col, "R11.6", f.qualname, "column = pos - (index of the "
+              "last '\\n' in source[:pos]) - 1", construct="location-column",
+              where=wh, detail=detail)
+
+
+TOKEN_TABLE_WRITERS = (
+    # functions that write the (namespace, name) -> value attribute table;
+    # validate_attributes / _check_attributes report the *name* stored here
+    # as the token of a CompilationError / LanguageError
+    "chameleon.parser.unpack_attributes",
+    "chameleon.zpt.program.convert_data_attributes",
+    "chameleon.zpt.program.MacroProgram.visit_element",
+)
+
+
+def _token_tables(repo, rep, split_ok):
+    n = 0
+    for q in TOKEN_TABLE_WRITERS:
+        f = repo.func(q)
+        for st in ast.walk(f.node):
+            if not isinstance(st, ast.Assign):
+                continue
+            for t in st.targets:
+                if not (isinstance(t, ast.Subscript) and
+                        isinstance(t.slice, ast.Tuple) and
+                        len(t.slice.elts) == 2):
+                    continue
+                n += 1
+                name = t.slice.elts[1]
+                chains = _chains(f.node, name, st.lineno + 1)
+                plain = [[x for x in c if x.startswith("format:") or
+                          x == "const" or x == "call:str" or
+                          (x.startswith("method:") and
+                           x[7:] in PLAIN_METHODS)] for c in chains]
+                shown = " | ".join(" <- ".join(c) for c in chains[:3])
+                rep.check(not all(plain), "R11.2", f.qualname,
+                          "the attribute name stored in the (namespace, "
+                          "name) table keeps its source position -- it is "
+                          "the token of 'Bad attribute for namespace' and "
+                          "of the statement errors (chains: %s)" % shown,
+                          construct="table-name:" + src(t)[:40],
+                          where=L.where(f, st.lineno),
+                          detail="every definition passes %s: a plain str"
+                                 % plain[:2])
+    rep.count("token_table_stores", n)
+    if n < 3:
+        raise AnalysisError("token table writers vanished (%d stores)" % n)
 
 
 INTERNAL_OK = {
